@@ -18,7 +18,7 @@ MODELLED = (
     "Configurable returns that value, other devices have no configuration; changes behind the bundler's back (e.g. a "
     "`set` on a configuration signal) are outside the model. Streams named 'interruptions' by the user are excluded "
     "(hypothesis no_name0). Old-style flyer streams (_local_descriptors) are not modelled.")
-RULE = ("corpus (C16-a witness); exhaustive: all op sequences of length <= 3 (quick; + 500 sampled of length 4..6) / <= 4 "
+RULE = ("corpus (C16-a witness); exhaustive: all op sequences of length <= 3 (quick; + 300 sampled of length 4..6) / <= 4 "
         "(thorough; + 3000 sampled) over {monitor o1 as s5, o1 fires, create s1, read o1, read o2, save, configure o1, "
         "configure o2, unmonitor o1} after open_run; random walks, configure profile (several bundled streams sharing "
         "devices, monitors, declared streams, collects) and malformed stream. Every case: full per-op comparison of model "
@@ -34,10 +34,10 @@ def cases(rng, tier):
     maxlen = 3 if tier == "quick" else 4
     for ops in bc.enum_sequences(ALPHABET, maxlen):
         out.append(bc.mk(bc.DEVS[:3], ops, tag="enum"))
-    for _ in range(500 if tier == "quick" else 3000):
+    for _ in range(300 if tier == "quick" else 3000):
         n = rng.randint(4, 6)
         out.append(bc.mk(bc.DEVS[:3], [["open_run"]] + [bc._thaw(rng.choice(ALPHABET)) for _ in range(n)], tag="enum+"))
-    n = 240 if tier == "quick" else 3000
+    n = 180 if tier == "quick" else 3000
     out += bc.random_cases(rng, n, "configure")
     out += bc.random_cases(rng, n // 3, "mixed")
     out += bc.random_cases(rng, n // 3, "configure", wild=0.3, tag="malformed")
